@@ -362,3 +362,67 @@ Fixpoint ftp_run (users : list (str * str)) (st : fstate) (lines : list str)
 Definition ftp_events (lines : list str) : list str := map trim_crlf lines.
 
 Definition ftp_init (fs : ffs) : fstate := mkF [] [] fs.
+
+(* ------------------------------------------------------------------ *)
+(* several connections on ONE service object                           *)
+(* ------------------------------------------------------------------ *)
+(* The login state belongs to the connection (ldap: the session object Handle builds, ftp:
+   the Conn made by newConn).  A history is a schedule: (connection number, request) in the
+   order in which the service executes them; a connection that has not been used yet is in the
+   initial state. *)
+
+Definition upd {A} (m : nat -> A) (c : nat) (v : A) : nat -> A :=
+  fun x => if Nat.eqb x c then v else m x.
+
+Definition proj {A} (c : nat) (l : list (nat * A)) : list A :=
+  map snd (filter (fun x => Nat.eqb (fst x) c) l).
+
+Fixpoint ldap_multi (creds : list str) (st : nat -> str) (sched : list (nat * lreq))
+  : list (nat * (lreq * lreply * levent)) :=
+  match sched with
+  | [] => []
+  | (c, r) :: rest =>
+      let '(login', rp, ev) := ldap_step creds (st c) r in
+      (c, (r, rp, ev)) :: ldap_multi creds (upd st c login') rest
+  end.
+
+(* ftp: (user, reqUser) per connection; the file system under the service root is shared *)
+Definition fauth := (str * str)%type.
+
+Fixpoint ftp_multi (users : list (str * str)) (auth : nat -> fauth) (fs : ffs)
+         (sched : list (nat * str)) : list (nat * (str * foutcome)) * ffs :=
+  match sched with
+  | [] => ([], fs)
+  | (c, l) :: rest =>
+      let '(st', o) := ftp_step users (mkF (fst (auth c)) (snd (auth c)) fs) l in
+      let '(out, fin) := ftp_multi users (upd auth c (f_user st', f_requser st')) (f_fs st') rest in
+      ((c, (l, o)) :: out, fin)
+  end.
+
+(* the part of receiveLine that concerns the login state only (no file system):
+   class 0 unknown command, 1 argument missing, 2 refused (not logged in), 3 executed *)
+Definition auth_step (users : list (str * str)) (a : fauth) (line : str) : fauth * N :=
+  let '(command, param) := parse_line line in
+  match ftp_lookup (to_upper command) with
+  | None => (a, 0%N)
+  | Some c =>
+      if require_param c && match param with [] => true | _ => false end then (a, 1%N)
+      else if require_auth c && match fst a with [] => true | _ => false end then (a, 2%N)
+      else (match c with
+            | USER => (fst a, param)
+            | PASS => if check_passwd users (snd a) param then (snd a, []) else a
+            | _ => a
+            end, 3%N)
+  end.
+
+Fixpoint auth_run (users : list (str * str)) (a : fauth) (lines : list str) : fauth * list N :=
+  match lines with
+  | [] => (a, [])
+  | l :: rest =>
+      let '(a', k) := auth_step users a l in
+      let '(fin, ks) := auth_run users a' rest in
+      (fin, k :: ks)
+  end.
+
+Definition oclass (o : foutcome) : N :=
+  match o with FUnknown => 0 | FNoParam => 1 | FNoAuth => 2 | FExec _ => 3 end%N.
